@@ -214,6 +214,91 @@ Theorem C10_waitsignal_deadlock_free :
 Proof. exact WP.l2_deadlock_free. Qed.
 Print Assumptions C10_waitsignal_deadlock_free.
 
+(** The detailed system (ConcDetailed.v): the whole pipeline with every worker executing
+    the real waitFor / signal steps (fast-path load, waiters counter, mutex, cond.Wait,
+    Broadcast) around each macroblock, and the recorder doing the same per row.
+    Refinement: every run of the detailed system projects (abstraction [abs]: a worker
+    inside waitFor has not started its macroblock, a worker inside signal has finished
+    it) to a run of the L1 system ending in the abstraction of its last state. *)
+From Webp Require Conc.ConcDetailed Conc.ConcDetailedProofs.
+Module D := Conc.ConcDetailed.
+Theorem C10_detailed_refines_rowsync :
+  forall (V : Type) (v0 : V) (f : nat -> nat -> V -> V -> V -> V -> V) (mbW mbH : nat),
+  1 <= mbW ->
+  forall (n : nat) (sched : list label) (s : D.dstate V),
+  D.drun V v0 f mbW mbH (D.dinit V v0 n) sched = Some s ->
+  exists sched1, run V v0 f mbW mbH (init V v0 n) sched1 = Some (D.abs V mbW s).
+Proof. exact Conc.ConcDetailedProofs.detailed_refines_rowsync. Qed.
+Print Assumptions C10_detailed_refines_rowsync.
+
+(** so the L1 results transfer: a detailed run that reaches a final state ends with the
+    serial macroblock results and token stream, whatever the schedule ... *)
+Theorem C10_detailed_final_runs_serial :
+  forall (V : Type) (v0 : V) (f : nat -> nat -> V -> V -> V -> V -> V) (mbW mbH : nat),
+  1 <= mbW ->
+  forall (n : nat) (sched : list label) (s : D.dstate V),
+  D.drun V v0 f mbW mbH (D.dinit V v0 n) sched = Some s -> D.dfinal V mbH s = true ->
+  (forall y x, y < mbH -> x < mbW -> D.d_out V s y x = Some (serial_out V v0 f mbW y x)) /\
+  D.d_tokens V s = serial_tokens V v0 f mbW mbH.
+Proof. exact Conc.ConcDetailedProofs.detailed_deterministic. Qed.
+Print Assumptions C10_detailed_final_runs_serial.
+
+(** ... and whenever a macroblock body runs in the detailed system, the shared context
+    cells it reads hold the serial values (row y-1's). *)
+Theorem C10_detailed_reads_serial :
+  forall (V : Type) (v0 : V) (f : nat -> nat -> V -> V -> V -> V -> V) (mbW mbH : nat),
+  1 <= mbW ->
+  forall (n : nat) (sched : list label) (s : D.dstate V) (i y x : nat) (tl l : V),
+  D.drun V v0 f mbW mbH (D.dinit V v0 n) sched = Some s ->
+  nth_error (D.d_workers V s) i = Some (D.DCompute y x tl l) ->
+  D.d_top V s x = ((if y =? 0 then None else Some (y - 1)), P V v0 f mbW y x) /\
+  (S x < mbW -> D.d_top V s (S x) = ((if y =? 0 then None else Some (y - 1)), P V v0 f mbW y (S x))).
+Proof. exact Conc.ConcDetailedProofs.detailed_reads_serial. Qed.
+Print Assumptions C10_detailed_reads_serial.
+
+(** The detailed system never deadlocks: every reachable state that is not final has an
+    enabled transition (multi-row version of the L2 invariant: waiters counter = number
+    of counted waiters, mutex owner = the process in a holding phase, a waiter asleep or
+    committed to cond.Wait while its row is ready has the row's signaller before its
+    Broadcast). *)
+From Webp Require Conc.ConcDetailedLive.
+Module DL := Conc.ConcDetailedLive.
+Theorem C10_detailed_deadlock_free :
+  forall (V : Type) (v0 : V) (f : nat -> nat -> V -> V -> V -> V -> V) (mbW mbH : nat),
+  1 <= mbW ->
+  forall (n : nat) (sched : list label) (s : D.dstate V), 1 <= n ->
+  D.drun V v0 f mbW mbH (D.dinit V v0 n) sched = Some s -> D.dfinal V mbH s = false ->
+  exists l, D.dstep V v0 f mbW mbH s l <> None.
+Proof. exact DL.detailed_deadlock_free. Qed.
+Print Assumptions C10_detailed_deadlock_free.
+
+(** Every maximal run of the detailed system — real waitFor / signal steps, any frame
+    size, any number of workers, any schedule — ends with the serial macroblock results
+    and token stream. *)
+Theorem C10_detailed_system_deterministic :
+  forall (V : Type) (v0 : V) (f : nat -> nat -> V -> V -> V -> V -> V) (mbW mbH : nat),
+  1 <= mbW ->
+  forall (n : nat) (sched : list label) (s : D.dstate V), 1 <= n ->
+  D.drun V v0 f mbW mbH (D.dinit V v0 n) sched = Some s ->
+  (forall l, D.dstep V v0 f mbW mbH s l = None) ->
+  (forall y x, y < mbH -> x < mbW -> D.d_out V s y x = Some (serial_out V v0 f mbW y x)) /\
+  D.d_tokens V s = serial_tokens V v0 f mbW mbH.
+Proof. exact DL.detailed_system_deterministic. Qed.
+Print Assumptions C10_detailed_system_deterministic.
+
+(** No lost wake-up in the detailed system. *)
+Theorem C10_detailed_no_lost_wakeup :
+  forall (V : Type) (v0 : V) (f : nat -> nat -> V -> V -> V -> V -> V) (mbW mbH : nat),
+  1 <= mbW ->
+  forall (n : nat) (sched : list label) (s : D.dstate V) (i y x : nat) (tl l : V) (ph : D.wph),
+  D.drun V v0 f mbW mbH (D.dinit V v0 n) sched = Some s ->
+  nth_error (D.d_workers V s) i = Some (D.DWait y x tl l ph) ->
+  needed mbW x <= D.d_done V s (y - 1) -> ph = D.PWaitCall \/ ph = D.PSleep ->
+  exists j x' tl' l' sp, nth_error (D.d_workers V s) j = Some (D.DSig (y - 1) x' tl' l' sp) /\
+                         DL.okphase ph sp = true.
+Proof. exact DL.detailed_no_lost_wakeup. Qed.
+Print Assumptions C10_detailed_no_lost_wakeup.
+
 (** Fork–join sections (shared with C12): disjoint writes + join make the result
     independent of the interleaving, the worker count and the partition; work-queue
     sections (DecodeFramesParallel) are independent of the order in which items are taken. *)
